@@ -112,7 +112,12 @@ def encode_to_dict(obj: Any, refs: Dict[int, Any]):
         elif isinstance(obj, colang_ast_module.SpecType):
             value = {"__type": "SpecType", "value": obj.value}
         elif isinstance(obj, Action):
-            value = {"__type": "Action", "value": obj.to_dict()}
+            # The arguments and the context of an action can hold any value (tuples, sets,
+            # dicts with non-string keys etc.), so they go through the encoding as well.
+            value = {
+                "__type": "Action",
+                "value": {k: encode_to_dict(v, refs) for k, v in obj.to_dict().items()},
+            }
         elif isinstance(obj, datetime):
             value = {"__type": "datetime", "value": obj.isoformat()}
         elif isinstance(obj, Enum):
